@@ -153,7 +153,8 @@ SOUP = ["<", ">", "</", "/>", "/", "=", '"', "'", " ", "\n", "<!--", "-->", "--"
         "amp", "x41", "65", "text", "T", "<![CDATA[", "]]>", "<!DOCTYPE html>", "<div>", "</div>", "<p>", "</p>", "<br>",
         "<br/>", "</br>", "<img src=\"a\">", "<a b>", "<a b=c d='e' f=\"g\">", "</a>", "<script>", "</script>", "<DIV>",
         "</DIV >", "</ p>", "<span class=\"x y\">", "</span>", "<div class>", "<div class=\"admonition\">", "&amp;", "&#65;",
-        "&#x41;", "&lt", "<b x=1 x=2>", "</b>", "<!-- c -->", "<?pi?>", "\t", "é", "<style>", "</style>", "<p/>", "<input disabled>"]
+        "&#x41;", "&lt", "<b x=1 x=2>", "</b>", "<!-- c -->", "<?pi?>", "\t", "é", "<style>", "</style>", "<p/>", "<input disabled>", "<![", "<![foo[x]]>", "<![ ", "<![1", "<![if x]>", "<![endif]>", "]>", "[", "]", "<!x",
+        "<a t=\"&quot;\">", "<a t=\"x&amp;y\">", "<a t='\"'>", "<!DOCTYPE a [", "<![temp[", "<![cdata["]
 
 
 def gen_soup(rng, maxlen=12):
@@ -179,8 +180,13 @@ VOID_STD = frozenset(["area", "base", "br", "col", "embed", "hr", "img", "input"
 CDATA_PY = ("script", "style")
 
 
+def esc_attr(v):
+    """serialisation of a double-quoted attribute value (written here independently of the code)"""
+    return "".join({"&": "&amp;", '"': "&quot;"}.get(c, c) for c in v)
+
+
 def print_attrs(attrs):
-    return "".join(" " + (k if v is None else f'{k}="{v}"') for k, v in attrs)
+    return "".join(" " + (k if v is None else f'{k}="{esc_attr(v)}"') for k, v in attrs)
 
 
 def print_html(h):
@@ -215,7 +221,7 @@ def is_name(s):
 
 def wf_attrs(attrs):
     ks = [k for k, _ in attrs]
-    return len(set(ks)) == len(ks) and all(is_name(k) and (v is None or not any(c in v for c in '"&')) for k, v in attrs)
+    return len(set(ks)) == len(ks) and all(is_name(k) for k, _ in attrs)
 
 
 def wf_siblings(hs, void, cdata):
@@ -264,7 +270,8 @@ def wf_html(h, void, cdata):
 
 LEAVES = [("d", "t"), ("d", " \n"), ("d", "a > b \"q\" é"), ("l", "DOCTYPE html"), ("c", " c "), ("c", "-"), ("p", "xml v?"),
           ("r", "65"), ("r", "x4F"), ("n", "amp"), ("n", "a-b.c"), ("c", "")]
-ATTRS = [[], [("class", "a b")], [("k", None)], [("id", ""), ("title", "x > 'y'\n<z>")], [("src", "a.png"), ("alt", "é")]]
+ATTRS = [[], [("class", "a b")], [("k", None)], [("id", ""), ("title", "x > 'y'\n<z> &amp; \"q\" &lt")],
+         [("src", "a.png?x=1&y=2"), ("alt", "é")]]
 
 
 def node_labels(small):
@@ -349,7 +356,7 @@ def rand_attrs(rng):
         elif r < 0.2:
             v = ""
         else:
-            v = rand_text(rng).replace('"', "'")
+            v = rand_text(rng) + rng.choice(["", "", "&", "&amp;", "&quot;", "&#65;", "& b", "&lt"])
         out.append((k, v))
     return out
 
@@ -600,6 +607,8 @@ def check_case(ctx, case):
         return check_soup(ctx, case)
     if k == "wf":
         return check_wf(ctx, case)
+    if k == "history":
+        return check_history(ctx, case)
     return True
 
 
@@ -747,11 +756,42 @@ def tuple_deep(h):
     return tuple(h)
 
 
+INCOMPLETE = ["text <b", "x &", "<div class=\"a", "<script>var a = 1;", "<!-- open", "<![CDATA[ open", "<a href='", "&#12", "<?pi",
+              "</di", "<style>p {", "<"]
+
+
+def check_history(ctx, case):
+    """parses of incomplete inputs must not influence later parses in the same process"""
+    from myst_parser.parsers import parse_html as P
+    hs = [tuple_deep(h) for h in case["doc"]]
+    text = print_doc(hs)
+    try:
+        alone = obs_tree(P.tokenize_html(text))
+        for t in case["before"]:
+            P.tokenize_html(t)
+        after = obs_tree(P.tokenize_html(text))
+    except Exception as e:  # noqa: BLE001
+        ctx.fail(f"total:exception:{type(e).__name__}:history", case, f"tokenize_html raised in a sequence of calls: {e!r}")
+        return False
+    if after != alone:
+        ctx.fail("history:result-depends-on-earlier-calls", case,
+                 "tokenize_html(text) differs after parsing incomplete inputs in the same process", alone["render"], after["render"])
+        return False
+    if wf_siblings(hs, VOID_STD, CDATA_PY) and after["render"] != text:
+        ctx.fail("roundtrip:after-history", case, "round trip fails after earlier parses", text, after["render"])
+        return False
+    return True
+
+
 SEED_CASES = [
     {"kind": "soup", "text": "<p>a</div>b", "name": "div"},
     {"kind": "soup", "text": "<div class>x</div><div class=\"a\">", "name": ""},
     {"kind": "wf", "doc": [("e", "a", [("b", None)], [("d", "x")])]},
     {"kind": "soup", "text": "<a><b></a>c</b>", "name": ""},
+    {"kind": "soup", "text": "<![foo[x]]>y", "name": ""},
+    {"kind": "soup", "text": "a<![ CDATA[x]]>", "name": ""},
+    {"kind": "wf", "doc": [("e", "a", [("title", "say \"hi\" & bye")], [])]},
+    {"kind": "history", "before": ["text <b", "<script>x"], "doc": [("e", "p", [], [("d", "t")])]},
 ]
 
 
@@ -769,6 +809,12 @@ def search(ctx):
             n_fail += 1
             if n_fail > 25:
                 break
+    for i in range(ctx.budget(1500, 15000, 15000)):
+        ctx.search_cases += 1
+        case = {"kind": "history", "before": [rng.choice(INCOMPLETE + [gen_soup(rng, 6)]) for _ in range(rng.randint(1, 3))],
+                "doc": gen_wf(rng)}
+        if not check_case(ctx, case):
+            break
     n_fail = 0
     for hs in wf_stream(ctx, for_search=True):
         ctx.search_cases += 1
@@ -799,6 +845,6 @@ LEVEL_TEXT = ("Proof (Coq): for every event list the Tree stack machine of the m
               "is tied to the code by differential correspondence on the real html.parser event streams.")
 LEVEL_NOTE = ("Trusted: Coq kernel; hand transcription of Tree/Element into coq/Html/HtmlModel.v (correspondence, not proof); "
               "html.parser as oracle (O_htmlparser_events exercised exhaustively on small wf documents); 'well-formed' is read as: "
-              "lower-case ASCII names, attribute values double-quoted without '\"' and '&' (or no value), no adjacent text nodes, "
+              "lower-case ASCII names, attribute values double-quoted with '&' and '\"' written &amp; / &quot; (or no value), no adjacent text nodes, "
               "script/style containing text only, comments/PI/declarations without '>', declarations starting with doctype, "
               "references terminated by ';'. Python's recursion limit for very deep trees is not modelled.")
